@@ -267,7 +267,7 @@ def run(ctx):
     ctx.assumptions = ["the left-file reader goroutine/channel and --prepipe are not modelled (the left file is a list of records)",
                        "the heterogeneity of contexts (NR, FILENAME) on emitted records is not observed"]
     forbidden_gate(ctx, ["Base", "C13"])
-    ok, why = check_props(ctx, "C13/Props.v", ["C13/Harness.vo", "C13/Proofs.vo", "C13/ProofsSorted.vo"])
+    ok, why = check_props(ctx, "C13/Props.v", ["C13/Harness.vo", "C13/Proofs.vo", "C13/ProofsSorted.vo", "C13/ProofsMerge.vo"])
     rng = ctx.rng
     n = 600 if ctx.tier == "quick" else 5000
     cases = [gen_case(rng, ctx.tier) for _ in range(n)]
